@@ -589,7 +589,12 @@ func runEngineCheckExtra(t *testing.T, prop string, cfgs []sched.Config, names f
 	si, sn := seqmc.Shard()
 	var res seqmc.Result
 	res.Property = prop
+	light := os.Getenv("MC_LIGHT") == "1"
 	for _, c := range cfgs {
+		if light && len(c.Bounds) > 3 {
+			// build-variant units of the quick tier: the first three bounds of every scenario
+			c.Bounds = c.Bounds[:3]
+		}
 		// every shard explores every scenario, but only its share of the level-2 subtrees
 		c.ShardI, c.ShardN = si, sn
 		st, vs := sched.Explore(c)
